@@ -72,6 +72,9 @@ def check(state, ev, ctx, obs):
         # header error: Message Header Error with the subcode; nothing is reported to the application
         return closes_with([[N(1, ctx['sub'])]]) and _no_reports(cbs)
     if ev == 'holdt':
+        if state in (OPENCONFIRM, ESTABLISHED) and ctx.get('hold') == 0:
+            # with a negotiated hold time of zero the hold timer is not running: it cannot expire
+            return False
         return closes_with([[N(4, 0)]])
     if ev == 'peer_close':
         # TcpConnectionFails.  RFC: OpenSent -> Active; an active-only speaker has nothing to listen on,
